@@ -26,6 +26,7 @@ struct Sink {
     interrupts: u32,
     shorts: u32,
     refused: u32,
+    vectored: u32,
 }
 
 impl Write for Sink {
@@ -53,6 +54,36 @@ impl Write for Sink {
             self.shorts += 1;
         }
         self.acc.extend_from_slice(&buf[..n]);
+        Ok(n)
+    }
+    fn write_vectored(&mut self, bufs: &[io::IoSlice<'_>]) -> io::Result<usize> {
+        // a real scatter write: may end in the middle of any slice while the sink still has room
+        let total: usize = bufs.iter().map(|b| b.len()).sum();
+        if total == 0 { return Ok(0); }
+        let b = self.script[self.call % self.script.len()];
+        self.call += 1;
+        if b == 255 && self.interrupts < 64 {
+            self.interrupts += 1;
+            return Err(io::ErrorKind::Interrupted.into());
+        }
+        let room = self.cap - self.acc.len();
+        if room == 0 {
+            self.refused += 1;
+            return match self.full {
+                FullMode::Zero => Ok(0),
+                FullMode::Error => Err(io::Error::new(io::ErrorKind::Other, "sink full")),
+            };
+        }
+        let mut n = total.min(room);
+        if b != 0 && b != 255 && usize::from(b) < n { n = usize::from(b); self.shorts += 1; }
+        let mut left = n;
+        for s in bufs {
+            let k = left.min(s.len());
+            self.acc.extend_from_slice(&s[..k]);
+            left -= k;
+            if left == 0 { break; }
+        }
+        self.vectored += 1;
         Ok(n)
     }
     fn flush(&mut self) -> io::Result<()> {
@@ -196,7 +227,7 @@ pub fn c20(cx: &mut Ctx) -> VResult {
         }
         let full = if cx.ch.chance(1, 2) { FullMode::Error } else { FullMode::Zero };
         for cap in 0..=exp.len() + 1 {
-            let mut sink = Sink { cap, acc: Vec::new(), script: script.clone(), call: 0, full, interrupts: 0, shorts: 0, refused: 0 };
+            let mut sink = Sink { cap, acc: Vec::new(), script: script.clone(), call: 0, full, interrupts: 0, shorts: 0, refused: 0, vectored: 0 };
             let res = guard(|| invoke(&mut sink));
             let res = match res { Ok(r) => r, Err(p) => vfail!("panic", "cgi::response", "writer panicked with capacity {cap}: {p}") };
             cx.ev("sink_run", cap as u64, exp.len() as u64);
